@@ -97,7 +97,7 @@ package store
 
 // ---------------------------------------------------------------- binary encoding of bins
 // Encoding only appends to the caller's buffer and leaves the content of the store unchanged (the paginated store
-// may reorganise itself). What the appended bytes denote is exercised by the bounded stand-in encode-roundtrip.
+// may reorganise itself). What the appended bytes denote is not specified (no stream-denotation contract, see DESIGN AB.2).
 //@ func Store.Encode
 //@   serves C06 C14 C07
 //@   requires SInv(this) && b != nil
